@@ -104,8 +104,8 @@ class SymS(_Base):
     def ex_int(self, i, k=0):
         return self._vd.Decimal(("grid", self._poly(i), k))
 
-    def eq(self, a, b):
-        """exact equality of two oracle values (symbolic mode: exact rational arithmetic)"""
+    def eq(self, a, b, scale=None):
+        """exact equality of two oracle values (symbolic mode: exact rational arithmetic; `scale` is only used on real code)"""
         return a == b
 
     def assume(self, cond):
@@ -266,10 +266,12 @@ class ConS(_Base):
     def ex_int(self, i, k=0):
         return Fraction(i, 10**k)
 
-    def eq(self, a, b):
-        """equality up to the real decimal module's 31-digit rounding of intermediate results"""
+    def eq(self, a, b, scale=None):
+        """equality up to the real decimal module's 31-digit rounding of intermediate results; `scale`: magnitude of the
+        operands the values were computed from (a difference of nearly equal numbers keeps their absolute rounding error)"""
         a, b = Fraction(a), Fraction(b)
-        return a == b or abs(a - b) <= Fraction(1, 10**22) * (abs(a) + abs(b)) + Fraction(1, 10**28)
+        ref = abs(a) + abs(b) + (abs(Fraction(scale)) if scale is not None else 0)
+        return a == b or abs(a - b) <= Fraction(1, 10**22) * ref + Fraction(1, 10**28)
 
     def assume(self, cond):
         if not cond:
